@@ -14,6 +14,7 @@ import (
 	"github.com/tdewolff/canvas/text"
 
 	"verif/simrt"
+	"verif/simrt/ssync"
 )
 
 // StepBudget is the per-task cap on decision points in the simulation phase. The largest solo
@@ -21,13 +22,19 @@ import (
 // non-termination under a schedule, not slowness.
 const StepBudget = 3_000_000
 
+// MaxSoloGets: a call that alone makes more pool requests than this (a sweep that keeps splitting
+// segments for seconds) is too expensive to simulate usefully; the run is discarded and counted.
+const MaxSoloGets = 300_000
+
 // Harness holds what is constant over a worker's life.
 type Harness struct {
-	Resources string
-	FontDir   string
-	Scratch   string
-	KeepTrace bool
-	NSites    int
+	Resources   string
+	FontDir     string
+	Scratch     string
+	KeepTrace   bool
+	NSites      int
+	soloGets    []int // pool requests of each task's calls when run alone (last solo pass)
+	maxSoloGets int
 	// QuiescenceWait is testing/synctest.Wait when running inside a bubble (see simrt.SetQuiescenceWait).
 	QuiescenceWait func()
 	// Progress is updated before each phase (read by the CPU watchdog).
@@ -97,6 +104,8 @@ func (h *Harness) progress(run int, phase string) {
 func (h *Harness) solo(spec *RunSpec, seedOf func(t int) uint64, only [][]bool) ([][]Result, [][]bool, error) {
 	res := make([][]Result, len(spec.Tasks))
 	multi := make([][]bool, len(spec.Tasks))
+	h.soloGets = make([]int, len(spec.Tasks))
+	h.maxSoloGets = 0
 	for t := range spec.Tasks {
 		order := simrt.NewRand(seedOf(t))
 		res[t] = make([]Result, len(spec.Tasks[t].Steps))
@@ -112,7 +121,12 @@ func (h *Harness) solo(spec *RunSpec, seedOf func(t int) uint64, only [][]bool) 
 			}
 			simrt.ResetRangeCounts()
 			simrt.SetSoloOrder(order)
+			ssync.SoloGets = 0
 			res[t][s] = ExecStep(env, &spec.Tasks[t].Steps[s])
+			if ssync.SoloGets > h.maxSoloGets {
+				h.maxSoloGets = ssync.SoloGets
+			}
+			h.soloGets[t] += ssync.SoloGets
 			simrt.SetSoloOrder(nil)
 			_, m := simrt.RangeCounts()
 			multi[t][s] = m > 0
@@ -159,6 +173,13 @@ func (h *Harness) Execute(spec *RunSpec) (*RunReport, *Outcome, error) {
 		}
 	}
 	rep.RefCPUms = cpuMS() - cpu0
+	soloGets := append([]int(nil), h.soloGets...)
+	if h.maxSoloGets > MaxSoloGets {
+		rep.Discarded = fmt.Sprintf("a call makes %d pool requests when run alone (limit %d)", h.maxSoloGets, MaxSoloGets)
+		rep.Stats = &simrt.Stats{ByKind: map[string]int{}}
+		rep.CPUms = cpuMS() - cpu0
+		return rep, out, nil
+	}
 
 	// ---- O6 repeat: a call that was asked to run twice on the very same input objects (alone)
 	for t := range ref {
@@ -218,9 +239,15 @@ func (h *Harness) Execute(spec *RunSpec) (*RunReport, *Outcome, error) {
 	}
 	cfg := spec.Sim
 	if len(cfg.StepBudget) == 0 {
+		// decision points allowed per task: far above what its calls need alone (pool requests are
+		// about a third of the decision points of a sweep), capped
 		cfg.StepBudget = make([]int, len(spec.Tasks))
 		for i := range cfg.StepBudget {
-			cfg.StepBudget[i] = StepBudget
+			b := 200_000 + 40*soloGets[i]
+			if b > StepBudget {
+				b = StepBudget
+			}
+			cfg.StepBudget[i] = b
 		}
 	}
 	n := h.NSites
